@@ -85,6 +85,35 @@ Section ABF.
         map (w_finish t) (r' :: map (w_receive (wG r')) others)
     end.
 
+  (* ---- a round that does not complete (round 5): a peer is dead, absent or too slow, and a blocking call of
+     replica_share() returns an error.  The repaired replica_share() is a transaction: a walker either completes the
+     round (Committed: what `exchange` gives it) or is exactly as it was before the call (Aborted).  Which walkers
+     commit depends on where the failure happens (replica 0 commits only when it received every delta; another replica
+     only when it received the sum from replica 0); the statements hold for every assignment. *)
+  Inductive outcome := Committed | Aborted.
+  Definition exchange_partial (t : Z) (oc : list outcome) (ws : list walker) : list walker :=
+    map (fun x : outcome * (walker * walker) =>
+           match fst x with Committed => snd (snd x) | Aborted => fst (snd x) end)
+        (combine oc (combine ws (exchange t ws))).
+
+  (* what a walker itself has sampled, as recoverable from its three grids: local + (global - snapshot) *)
+  Definition own_data (w : walker) : grid := fun i => gadd G (wLoc w i) (gsub G (wG w i) (wL w i)).
+
+  (* replica_share() before that repair, on replica 0, when the receive from the (k+1)-th other replica fails: the
+     deltas of the k replicas before it are already added to the global grid, the snapshot grid holds the last delta
+     that was unpacked into it (its own when k = 0), the local grid already has the own delta; return *)
+  Definition root_fail_old (k : nat) (ws : list walker) : option walker :=
+    match map w_prepare ws with
+    | [] => None
+    | r :: others => Some (root_collect r (firstn k (map wL others)))
+    end.
+
+  (* a walker that starts from data read through inputPrefix (read_gradients_samples): every replica reads the same
+     grid I; it is recorded as exchanged already (snapshot := I), so nobody sends it.  Before the repair of round 5 this
+     was only done with "shared on" in the configuration: with sharing enabled later by a script the snapshot was empty *)
+  Definition w_init_input (I : grid) (t : Z) : walker := mkW I I grid0 t.
+  Definition w_init_input_old (I : grid) (t : Z) : walker := mkW I grid0 grid0 t.
+
   (* restart through a state file: samples/gradients, local_* and (since the repair) last_* are
      written and read back; shared_last_step := step of the restart *)
   Definition w_restart (t : Z) (w : walker) : walker := mkW (wG w) (wL w) (wLoc w) t.
